@@ -220,6 +220,18 @@ func c07Check(x *core.Ctx, c *core.Case) {
 	if err == nil && schema != nil {
 		x.Count("graph_checked")
 		c07Graph(x, schema, mg)
+		if c.Get("builtin-first") == "" && len(mg.DupTypes) == 0 && len(mg.DupDirectives) == 0 && len(mg.SchemaDefs) <= 1 {
+			// contents: what the loaded schema holds per type and directive (fields, arguments, defaults, enum values,
+			// members, interfaces, applied directives, descriptions, roots, schema directives; as sets) is what the
+			// definitions and extensions say, merged by an independent implementation
+			o := model.CanonOpts{FieldsAsSets: true, NoBuiltins: true, NoRelations: true}
+			if got, want := model.CanonSchema(schema, o), canonMerged(mg, o); got != want {
+				dg, dw := model.FirstDiff(got, want)
+				x.Violate("content("+firstWords(templateOf(dw+" "), 1)+")", dg, "as defined: "+dw)
+			} else {
+				x.Count("contents_compared")
+			}
+		}
 		if x.WantSample() && expect == "load" && len(src) < 1500 {
 			x.Sample(map[string]interface{}{"schema": src, "verdict": "loaded; graph monitor: every reference resolves and relations equal the definitions", "types": len(schema.Types)})
 		}
@@ -524,4 +536,139 @@ func c07EntryPoints(x *core.Ctx, sources []*ast.Source, schema *ast.Schema, err 
 			}
 		}
 	}
+}
+
+func canonModelDirs(ds []model.Dir, sorted bool) string {
+	var l []string
+	for _, d := range ds {
+		var b strings.Builder
+		b.WriteString("@" + d.Name + "(")
+		for _, a := range d.Args {
+			b.WriteString(a.Name + ":" + a.Value.CanonString() + ";")
+		}
+		b.WriteString(")")
+		l = append(l, b.String())
+	}
+	if sorted {
+		sort.Strings(l)
+	}
+	return strings.Join(l, " ")
+}
+
+func canonModelArgs(as []*model.ArgDef, o model.CanonOpts) string {
+	var b strings.Builder
+	for _, a := range as {
+		b.WriteString(a.Name + ":" + a.Type.String())
+		if a.Default != nil {
+			b.WriteString("=" + a.Default.CanonString())
+		}
+		if !o.NoDesc && a.Desc != "" {
+			fmt.Fprintf(&b, " desc=%q", a.Desc)
+		}
+		if s := canonModelDirs(a.Dirs, o.FieldsAsSets); s != "" {
+			b.WriteString(" " + s)
+		}
+		b.WriteString("; ")
+	}
+	return b.String()
+}
+
+// canonMerged writes the reference's merged view in the format of model.CanonSchema (same options), so that "the loaded
+// schema holds what the definitions say" is one string comparison. Only NoBuiltins+NoRelations dumps are supported.
+func canonMerged(mg *tsys.Merged, o model.CanonOpts) string {
+	var b strings.Builder
+	for _, op := range []string{"query", "mutation", "subscription"} {
+		if r := mg.Roots[op]; r != "" {
+			fmt.Fprintf(&b, "root %s: %s\n", op, r)
+		}
+	}
+	if !o.NoDesc && mg.SchemaDesc != "" {
+		fmt.Fprintf(&b, "schema desc=%q\n", mg.SchemaDesc)
+	}
+	if ds := canonModelDirs(mg.SchemaDirs, o.FieldsAsSets); ds != "" {
+		fmt.Fprintf(&b, "schema dirs %s\n", ds)
+	}
+	prelude := map[*model.Item]bool{}
+	for _, it := range tsys.PreludeItems() {
+		prelude[it] = true
+	}
+	for _, n := range mg.DirectiveNames() {
+		d := mg.Directives[n]
+		if prelude[d] {
+			continue
+		}
+		fmt.Fprintf(&b, "directive @%s(%s) repeatable=%v on ", n, canonModelArgs(d.Args, o), d.Repeatable)
+		locs := append([]string{}, d.Locations...)
+		if o.FieldsAsSets {
+			sort.Strings(locs)
+		}
+		b.WriteString(strings.Join(locs, "|"))
+		if !o.NoDesc && d.Desc != "" {
+			fmt.Fprintf(&b, " desc=%q", d.Desc)
+		}
+		b.WriteString("\n")
+	}
+	for _, n := range mg.TypeNames {
+		d := mg.Types[n]
+		if d.BuiltIn {
+			continue
+		}
+		fmt.Fprintf(&b, "%s %s", astKind(d.Kind), d.Name)
+		if !o.NoDesc && d.Desc != "" {
+			fmt.Fprintf(&b, " desc=%q", d.Desc)
+		}
+		in := append([]string{}, d.Interfaces...)
+		mb := append([]string{}, d.Members...)
+		if o.FieldsAsSets {
+			sort.Strings(in)
+			sort.Strings(mb)
+		}
+		if len(in) > 0 {
+			b.WriteString(" implements " + strings.Join(in, "&"))
+		}
+		if len(mb) > 0 {
+			b.WriteString(" = " + strings.Join(mb, "|"))
+		}
+		if ds := canonModelDirs(d.Dirs, o.FieldsAsSets); ds != "" {
+			b.WriteString(" " + ds)
+		}
+		b.WriteString("\n")
+		var fl, vl []string
+		for _, f := range d.Fields {
+			var fb strings.Builder
+			fmt.Fprintf(&fb, "  field %s(%s): %s", f.Name, canonModelArgs(f.Args, o), f.Type.String())
+			if f.Default != nil {
+				fb.WriteString(" = " + f.Default.CanonString())
+			}
+			if !o.NoDesc && f.Desc != "" {
+				fmt.Fprintf(&fb, " desc=%q", f.Desc)
+			}
+			if ds := canonModelDirs(f.Dirs, o.FieldsAsSets); ds != "" {
+				fb.WriteString(" " + ds)
+			}
+			fl = append(fl, fb.String())
+		}
+		for _, v := range d.Values {
+			var vb strings.Builder
+			fmt.Fprintf(&vb, "  value %s", v.Name)
+			if !o.NoDesc && v.Desc != "" {
+				fmt.Fprintf(&vb, " desc=%q", v.Desc)
+			}
+			if ds := canonModelDirs(v.Dirs, o.FieldsAsSets); ds != "" {
+				vb.WriteString(" " + ds)
+			}
+			vl = append(vl, vb.String())
+		}
+		if o.FieldsAsSets {
+			sort.Strings(fl)
+			sort.Strings(vl)
+		}
+		for _, l := range fl {
+			b.WriteString(l + "\n")
+		}
+		for _, l := range vl {
+			b.WriteString(l + "\n")
+		}
+	}
+	return b.String()
 }
